@@ -187,6 +187,23 @@ def judge_collections(ctx, rng, t, pool):
         return ctx.violation('C03|extract|' + t[0], repr(e)[:200], case)
     if got != srt:
         ctx.violation('C03|map-UPDATE-key-order-or-dedup|' + t[0], 'got %r want %r' % (got, srt), case)
+    # and through a big_map; the history ends with overwrites of the least key and of a middle key (no fresh key afterwards)
+    order2 = order + [srt[0]] + ([srt[len(srt) // 2]] if len(srt) > 2 else [])
+    code = [{'prim': 'EMPTY_BIG_MAP', 'args': [T.to_micheline(t), {'prim': 'nat'}]}]
+    for n_, x in enumerate(order2):
+        code += [{'prim': 'PUSH', 'args': [{'prim': 'option', 'args': [{'prim': 'nat'}]}, {'prim': 'Some', 'args': [{'int': str(n_)}]}]}, D.push(t, x), {'prim': 'UPDATE'}]
+    it = D.new_interpreter()
+    res = it.execute(code)
+    ctx.count('update_built_big_maps')
+    case = dict(case, elements=[P.render(x, t, 'readable') for x in order2], via='UPDATE on a big_map')
+    if res.error is not None:
+        return ctx.violation('C03|big_map-UPDATE-fails|' + t[0], repr(res.error)[:200], case)
+    try:
+        got = [k for k, _ in X.value_of(it.stack.items[0])[2]]
+    except Exception as e:
+        return ctx.violation('C03|extract|' + t[0], repr(e)[:200], case)
+    if got != srt:
+        ctx.violation('C03|big_map-UPDATE-key-order-or-dedup|' + t[0], 'pending entries in the order %r, want %r' % (got, srt), case)
 
 
 def run(ctx):
@@ -219,6 +236,13 @@ def run(ctx):
         judge_collections(ctx, rng, t, pool if len(pool) <= 8 else G._thin(rng, pool, 8))
         if len(ctx.samples) < 4 and T.depth(t) == 2:
             ctx.samples.append({'type': T.show(t), 'pool': [P.render(x, t, 'readable') for x in pool[:4]]})
+    # keys that real maps, sets and big maps use (mainnet corpus of the repository tests)
+    from rv.gen import corpus as C
+    for j, (t, pool) in enumerate(sorted(C.key_pools(ctx.pick(10, 14)).items())):
+        if ctx.mine(j):
+            ctx.count('corpus_key_pools')
+            judge_pool(ctx, t, pool)
+            judge_collections(ctx, rng, t, pool[:8])
     # signature spelled two ways, same bytes: equal
     if ctx.mine(0):
         raw = bytes(range(64))
